@@ -673,25 +673,32 @@ impl DnsCache {
         (refresh_due, new_timers)
     }
 
-    /// Returns the set of A/AAAA records that are due for refresh for a `hostname`.
+    /// Returns the set of A/AAAA records that are due for refresh for a `hostname`,
+    /// and the new timers for their next refresh.
     ///
-    /// For these records, their refresh time will be updated so that they will not refresh again.
+    /// These records move on to their next refresh time (85%, 90%, 95% of TTL), like
+    /// the records of a browsed service: such a record can belong to both.
     pub(crate) fn refresh_due_hostname_resolutions(
         &mut self,
         hostname: &str,
-    ) -> HashSet<(String, ScopedIp)> {
+    ) -> (HashSet<(String, ScopedIp)>, HashSet<u64>) {
         let now = current_time_millis();
+        let mut new_timers = HashSet::new();
 
-        self.addr
+        let refresh_due = self
+            .addr
             .get_mut(hostname)
             .into_iter()
             .flatten()
             .filter_map(|record| {
                 let rec = record.record.get_record_mut();
-                if rec.is_expired(now) || !rec.refresh_due(now) {
+                if !rec.refresh_maybe(now) {
                     return None;
                 }
-                rec.refresh_no_more();
+
+                // One query covers the refresh times that have passed already.
+                while rec.refresh_maybe(now) {}
+                new_timers.insert(rec.get_refresh_time());
 
                 Some((
                     hostname.to_owned(),
@@ -703,7 +710,9 @@ impl DnsCache {
                         .address(),
                 ))
             })
-            .collect()
+            .collect();
+
+        (refresh_due, new_timers)
     }
 
     /// Returns a list of Known Answer for a given question of `name` with `qtype`.
